@@ -176,6 +176,7 @@ def rule_defn(which):
                     all(a[3][1:] == (("arg", 2),) for a in atoms) and all(table[k] == (k[0] and k[1]) for k in table)
                 o.check(ok, prog.pretty[p], "is-isolated-definition", "is_isolated(u) is not is_sink(u) && is_source(u)", prog.fns[p]["span"])
             closure_defs(crate, o, QUERY_CLOSURES)
+            size_shortcuts(crate, o, SHORTCUT_QUERIES)
             for p in impl_fns(crate, "graaf::op::has_walk::HasWalk", "has_walk"):
                 walk_clause(crate, o, p)
             return o.report(floors={"derived query definitions": (o.instances, 4)}, note=undecided_note(o))
@@ -270,6 +271,7 @@ def rule_defn(which):
                         o.check(False, prog.pretty[p], name + "-from-counts", "%s is decided from order / size / degree counts alone; digraphs with "
                                 "equal counts can differ in it (the adjacency of no pair of vertices is ever read)" % name, counts[0]["span"])
         size_precheck_formulas(crate, o)
+        size_shortcuts(crate, o, SHORTCUT_PREDS)
         closure_defs(crate, o, PRED_CLOSURES)
         # is_subdigraph: V(self) must be tested for membership in V(d)
         for p in impl_fns(crate, "graaf::op::is_subdigraph::IsSubdigraph", "is_subdigraph"):
@@ -452,6 +454,9 @@ PRED_CLOSURES = [
 ]
 
 
+SHORTCUT_PREDS = ("is_complete", "is_semicomplete", "is_tournament", "is_symmetric", "is_oriented", "is_balanced", "is_regular",
+                  "is_isolated_free", "is_simple")
+SHORTCUT_QUERIES = ("min_indegree", "max_indegree", "min_outdegree", "max_outdegree", "min_degree", "max_degree")
 SIZE_FORMULAS = {
     # predicate -> (comparison the precheck may use, closed form of the compared quantity)
     "is_tournament": (("Eq", "Ne"), lambda n: n * (n - 1) // 2),
@@ -526,6 +531,181 @@ def size_precheck_formulas(crate, o):
                             "that is not %s (first difference at order %s): digraphs that satisfy the definition are rejected (or the "
                             "reverse) before any pair is looked at" % (name, "n(n-1)" if name == "is_complete" else "n(n-1)/2",
                                                                       bad[0] if bad else "-"), ev["span"])
+
+
+_SHORTCUT_TABLE = None
+
+
+def _shortcut_table():
+    """name -> {(n, s): set of answers over ALL digraphs with n vertices and s arcs}, n = 1..4, by enumeration of the definitions
+    (this is a table of the mathematical definitions, not an execution of the crate)"""
+    global _SHORTCUT_TABLE
+    if _SHORTCUT_TABLE is not None:
+        return _SHORTCUT_TABLE
+    T = {}
+
+    def put(name, n, sz, val):
+        T.setdefault(name, {}).setdefault((n, sz), set()).add(val)
+    for n in range(1, 5):
+        pairs = [(u, v) for u in range(n) for v in range(n) if u != v]
+        for mask in range(1 << len(pairs)):
+            A = {pairs[i] for i in range(len(pairs)) if mask >> i & 1}
+            sz = len(A)
+            ind = [sum(1 for (u, v) in A if v == x) for x in range(n)]
+            outd = [sum(1 for (u, v) in A if u == x) for x in range(n)]
+            und = [(u, v) for (u, v) in pairs if u < v]
+            put("is_complete", n, sz, sz == len(pairs))
+            put("is_semicomplete", n, sz, all((u, v) in A or (v, u) in A for (u, v) in und))
+            put("is_tournament", n, sz, all(((u, v) in A) != ((v, u) in A) for (u, v) in und))
+            put("is_symmetric", n, sz, all((v, u) in A for (u, v) in A))
+            put("is_oriented", n, sz, all((v, u) not in A for (u, v) in A))
+            put("is_balanced", n, sz, ind == outd)
+            put("is_regular", n, sz, len(set(ind + outd)) == 1)
+            put("is_isolated_free", n, sz, all(ind[x] + outd[x] > 0 for x in range(n)))
+            put("is_simple", n, sz, True)
+            put("min_indegree", n, sz, min(ind))
+            put("max_indegree", n, sz, max(ind))
+            put("min_outdegree", n, sz, min(outd))
+            put("max_outdegree", n, sz, max(outd))
+            put("min_degree", n, sz, min(a + b for a, b in zip(ind, outd)))
+            put("max_degree", n, sz, max(a + b for a, b in zip(ind, outd)))
+    _SHORTCUT_TABLE = T
+    return T
+
+
+def size_shortcuts(crate, o, names):
+    """A query or predicate may answer from the counts alone -- `if size() < order() { return 0 }` -- only when every digraph
+    with those counts has that answer.  For each function named in `names` (trait impls and provided methods): every branch
+    whose condition is a term over size() and the order and one of whose sides reaches the return without any further call is
+    evaluated, with unsigned integer arithmetic, for every (n, s) with 1 <= n <= 4, 0 <= s <= n(n-1) that the earlier such
+    branches let through; the constant returned on that side must be the answer of all digraphs with n vertices and s arcs
+    (table enumerated from the definitions)."""
+    prog = crate.prog
+    T = _shortcut_table()
+
+    def is_order(t):
+        if t[0] == "len" and t[1][0] == "at" and isinstance(t[1][1], str) and t[1][1] in ("A1.arcs",):
+            return True
+        if t[0] == "mem" and t[1] == "A1.order" and t[3] is None:
+            return True
+        return t[0] == "call" and t[1].endswith("Order::order") and t[3] and t[3][0][0] == "at" and t[3][0][1] == "A1"
+
+    def is_size(t):
+        return t[0] == "call" and t[1].endswith("Size::size") and bool(t[3]) and t[3][0][0] == "at" and t[3][0][1] == "A1"
+
+    def has_size(t):
+        return isinstance(t, tuple) and bool(t) and (is_size(t) or any(has_size(x) for x in t if isinstance(x, tuple)))
+
+    def ev_(t, n, sz):
+        if is_size(t):
+            return sz
+        if is_order(t):
+            return n
+        if t[0] == "const" and isinstance(t[2], int):
+            return t[2]
+        if t[0] == "un" and t[1] == "Not":
+            a = ev_(t[2], n, sz)
+            return None if a is None else (0 if a else 1)
+        if t[0] == "bin":
+            a, b = ev_(t[2], n, sz), ev_(t[3], n, sz)
+            if a is None or b is None:
+                return None
+            op = t[1]
+            if op in ("Add", "Mul"):
+                return a + b if op == "Add" else a * b
+            if op == "Sub":
+                return a - b if a >= b else None
+            if op in ("Div", "Rem"):
+                return None if not b else (a // b if op == "Div" else a % b)
+            if op == "Shr":
+                return a >> b
+            if op == "Shl":
+                return a << b
+            if op == "BitAnd":
+                return a & b
+            cmp_ = {"Eq": a == b, "Ne": a != b, "Lt": a < b, "Le": a <= b, "Gt": a > b, "Ge": a >= b}
+            if op in cmp_:
+                return 1 if cmp_[op] else 0
+        return None
+
+    def edge_holds(lab, val):
+        if lab[0] == "sw":
+            return val == int(lab[1])
+        if lab[0] == "sw_other":
+            return val not in [int(x) for x in lab[1]]
+        return True
+    cand = [p for p in crate.fn_paths() if prog.fns[p].get("name") in names and prog.fns[p]["kind"] != "Closure"
+            and (prog.fns[p]["path"].startswith("graaf::repr::") or prog.fns[p]["path"].startswith("graaf::op::"))]
+    for p in cand:
+        name = prog.fns[p]["name"]
+        an = crate.an(p)
+        cfg = an.cfg
+        rets = [e for e in an.events if e["k"] == "return"]
+        sws = [e for e in an.events if e["k"] == "switch" and has_size(e["discr"]) and ev_(e["discr"], 3, 3) is not None]
+        if not sws or len(rets) != 1:
+            continue
+        allsw = [e for e in an.events if e["k"] == "switch" and ev_(e["discr"], 3, 3) is not None]
+        busy = {e["b"] for e in an.events if e["k"] == "call" and not (e["key"] or "").endswith(("Order::order", "Size::size"))}
+
+        def reach(b0):
+            seen, st = {b0}, [b0]
+            while st:
+                x = st.pop()
+                for tg, _ in cfg.succ[x]:
+                    if tg not in seen:
+                        seen.add(tg)
+                        st.append(tg)
+            return seen
+        rb = rets[0]["b"]
+        rv = rets[0]["val"]
+        for e in sws:
+            b = e["b"]
+            # earlier count-only branches that every path to b went through on one side
+            pre = []
+            for e2 in allsw:
+                if e2["b"] == b or not cfg.dominates(e2["b"], b):
+                    continue
+                sides = [(tg, lab) for tg, lab in cfg.succ[e2["b"]] if tg == b or cfg.dominates(tg, b)]
+                sides = [(tg, lab) for tg, lab in sides if len(cfg.pred[tg]) == 1]     # the edge itself dominates b
+                if len(sides) == 1:
+                    pre.append((e2["discr"], sides[0][1]))
+            for tg, lab in cfg.succ[b]:
+                R = reach(tg)
+                if R & busy or rb not in R:
+                    continue
+                # constants that reach the return from this side
+                def phi_ins(t, seen=()):
+                    if not (t[0] == "phi" and len(t) == 3) or t in seen:
+                        return [t]
+                    out_ = []
+                    for q, _ in cfg.pred[t[1]]:
+                        if q in an.ver_out and (q in R or (q == b and tg == t[1])):
+                            out_ += phi_ins(an.var_term(an.ver_out[q], t[2]), seen + (t,))
+                    return out_
+                ins = phi_ins(rv)
+                consts = {t[2] for t in ins if t[0] == "const" and isinstance(t[2], int)}
+                if len(consts) != 1 or len(consts) != len({t for t in ins}):
+                    continue
+                c = consts.pop()
+                o.instances += 1
+                bad = None
+                for n in range(1, 5):
+                    for sz in range(0, n * (n - 1) + 1):
+                        v = ev_(e["discr"], n, sz)
+                        if v is None or not edge_holds(lab, v):
+                            continue
+                        vs = [(ev_(d2, n, sz), l2) for d2, l2 in pre]
+                        if any(v2 is None or not edge_holds(l2, v2) for v2, l2 in vs):
+                            continue
+                        ans = T[name][(n, sz)]
+                        if ans != {bool(c) if name.startswith("is_") else c}:
+                            bad = (n, sz, sorted(ans))
+                            break
+                    if bad:
+                        break
+                o.check(bad is None, prog.pretty[p], name + "-size-shortcut", "%s answers %s from size() and the order alone on a branch "
+                        "that is taken for order %s, size %s, where digraphs with those counts have the answers %s: the counts do not "
+                        "decide the answer there" % ((name, c) + (bad if bad else ("-", "-", "-"))), e["span"])
 
 
 def consumer_of(crate, parent, cpath):
